@@ -186,8 +186,15 @@ fn main() {
         let case: Value = serde_json::from_str(&line).unwrap();
         let r = std::panic::catch_unwind(|| run_case(&case));
         let out = match r {
-            Ok(v) => v,
-            Err(_) => json!({"id": case["id"], "panic": true}),
+            Ok(mut v) => {
+                // polls that returned Pending without a pending transport and without a wake
+                v["lost_wakeups"] = json!(zv::take_lost_wakeups());
+                v
+            }
+            Err(_) => {
+                zv::take_lost_wakeups();
+                json!({"id": case["id"], "panic": true})
+            }
         };
         writeln!(w, "{}", out).unwrap();
     }
